@@ -156,7 +156,7 @@ class KernelSim(WorldBase):
                                       prefix=g.choice(["tgt", "tgt", "hist", "tgt-x"]))
                 self._gen_faults(f, s, cfg["faults"])
                 evs.append(["session", s])
-            target_ev = ["session", dict(target, role="target", ncu=g.choice(THRESHOLDS))]
+            target_ev = ["session", dict(target, role="target", ncu=g.choice(THRESHOLDS), release_at=g.randint(0, 12))]
             mark = len(evs)
             if g.random() < 0.3:
                 B, Kk = g.randint(1, 3), g.randint(2, 6)
@@ -406,7 +406,11 @@ class KernelSim(WorldBase):
         p = {"mixed": 0.5, "heavy": 0.85}[level]
         if f.random() >= p:
             return
-        kind = f.choice(["body", "body_abandon", "oserr", "oserr_abandon", "undrained", "abandon", "break", "break"])
+        kind = f.choice(["body", "body_abandon", "oserr", "oserr_abandon", "undrained", "abandon", "break", "break", "hold"])
+        if kind == "hold":
+            # the earlier session also starts a dense walk over an operand, leaves it part-way and KEEPS the iterator; the
+            # session ends normally. The iterator is dropped later - possibly in the middle of the target session
+            s["hold_dense"] = {"steps": f.randint(1, 3), "op": f.randrange(3)}
         if kind == "break":
             # loop bodies of the earlier session leave their loops early at these steps; the session ends normally
             s["break_at"] = sorted({f.randint(1, 25) for _ in range(f.randint(1, 4))})
@@ -663,6 +667,18 @@ class KernelSim(WorldBase):
                 if (mask >> (i % 48)) & 1:
                     self._drain(s["reg"], batches)
                     self.probe("consumer_drained_mid_kernel")
+        if role == "target" and getattr(self, "held_gens", None) and s.get("release_at") is not None:
+            rel = s["release_at"]
+
+            def hook(kind, info):
+                i = hook_n[0]
+                hook_n[0] += 1
+                if i == rel and self.held_gens:
+                    # an iterator an earlier session left suspended goes away now (the program drops its last reference)
+                    for g_ in self.held_gens:
+                        g_.close()
+                    self.held_gens = []
+                    self.probe("held_walk_of_an_earlier_session_released_mid_session")
         if role == "isect":
             isect = self._isect_setup(s, flow)
             mask = s.get("mask", 0)
@@ -705,6 +721,8 @@ class KernelSim(WorldBase):
                                  hook=hook)
             if s.get("break_at"):
                 self.fault("loop-left-early")
+            if s.get("hold_dense"):
+                self._hold_dense(s["hold_dense"])
             if role == "consume" and s.get("premature_end"):
                 # the program calls endCollect() too early (rows are still waiting for the consumer): the call is turned
                 # away, the consumer drains, and the session is ended again - nothing is lost, nothing comes twice
@@ -804,7 +822,7 @@ class KernelSim(WorldBase):
             self._judge_exact(s, out, counts)
         elif role == "target":
             self._judge_target(s, out, counts)
-        elif role == "history" and not (s.get("abort_at") or s.get("fail_at") or s.get("break_at")) \
+        elif role == "history" and not (s.get("abort_at") or s.get("fail_at") or s.get("break_at") or s.get("hold_dense")) \
                 and s.get("end", "normal") == "normal" and not fired:
             # an undisturbed earlier session is a session like any other: exact counts, whatever ran before it
             # (its trace files are read here, as a user would between two sessions)
@@ -819,7 +837,7 @@ class KernelSim(WorldBase):
                 kf.update({k: v for k, v in out["files"].items() if k.startswith("tgt-x-")})
                 self.kept_files = kf
         if role == "history" and s["prefix"] == "tgt-x" and not (
-                not (s.get("abort_at") or s.get("fail_at") or s.get("break_at")) and s.get("end", "normal") == "normal" and not fired):
+                not (s.get("abort_at") or s.get("fail_at") or s.get("break_at") or s.get("hold_dense")) and s.get("end", "normal") == "normal" and not fired):
             self.kept_files = {}        # a later, disturbed session under the same prefix owns those files now
         self._operands_unchanged("session")
         return res
@@ -902,6 +920,18 @@ class KernelSim(WorldBase):
                        f"{'missing' if b is None else str(len(b.splitlines())) + ' lines'}")
             if self.nsess > 3:
                 self.probe("target_after_history")
+
+    def _hold_dense(self, h):
+        names = sorted(n for n in self.tensors if n != "__Z__")
+        t = self.tensors[names[h["op"] % len(names)]]
+        root = t.getRoot()
+        if not isinstance(root, Fiber) or not isinstance(root.getShape(all_ranks=False), int):
+            return
+        g_ = iter(root.iterShape())
+        for _ in range(h["steps"]):
+            next(g_, None)
+        self.__dict__.setdefault("held_gens", []).append(g_)
+        self.fault("walk-left-suspended")
 
     def _quiesce(self):
         """a part of the program that is not measuring anything runs with collection off: a session an earlier part
